@@ -155,7 +155,7 @@ func c02Gen(rt *rapid.T) c02Case {
 							names = append(names, n)
 						}
 					}
-					f := gen.FailingInsert(rt, db.Tables[names[rapid.IntRange(0, len(names)-1).Draw(rt, "failtbl")]])
+					f := gen.FailingStmt(rt, db, db.Tables[names[rapid.IntRange(0, len(names)-1).Draw(rt, "failtbl")]])
 					out = append(out, f)
 				}
 			}
